@@ -45,6 +45,11 @@ var c02Routes = []string{
 	"{% firstof x %}",
 	"{% for i in l %}{% cycle x \"b\" %}{% endfor %}",
 	"{% cycle x \"b\" as c %}{{ c }}",
+	// a named cycle that mixes already-safe markup (macro output) with the tainted text and is advanced BY NAME:
+	// whether the name's current value may be printed raw is a matter of the current value, not of the first one
+	"{% macro hr() %}<hr>{% endmacro %}{% cycle hr() x as sep silent %}{% cycle sep %}[{{ sep }}]",
+	"{% macro hr() %}<hr>{% endmacro %}{% cycle hr() x as sep %}{% cycle sep %}{{ sep }}{% with y=sep %}{{ y }}{% endwith %}",
+	"{% macro hr() %}<hr>{% endmacro %}{% cycle x hr() as sep silent %}{{ sep }}{% cycle sep %}{% cycle sep %}{{ sep }}",
 	"{% for i in l %}{% ifchanged %}{{ x }}{% endifchanged %}{% endfor %}",
 	"{% for i in l %}{% ifchanged i %}{{ i }}{% endifchanged %}{% endfor %}",
 	"{% block b %}{{ x }}{% endblock %}",
